@@ -533,6 +533,9 @@ func Run(r *mon.Run) {
 			}
 		})
 	}
+	if r.WantEngine("window") {
+		windowCases(r)
+	}
 	if r.WantEngine("shutdown") {
 		shutdownCases(r)
 	}
